@@ -191,7 +191,12 @@ def fill (W : Nat) : Nat → Nat → Filt → Disk → Option (Filt × Disk)
     | some hb =>
       match f.insert W hb.bits b with
       | none => none
-      | some (f', ws) => fill W cnt (b + 1) f' (applyBatch d ws)
+      | some (f', ws) =>
+        -- (no closure layer when nothing is written: a fill of 8000 blocks would otherwise leave
+        -- an 8000-deep lookup chain in the compiled driver)
+        match ws with
+        | [] => fill W cnt (b + 1) f' d
+        | _ => fill W cnt (b + 1) f' (applyBatch d ws)
 
 /-- The backward scan of `rebuildRunningEventFilter`: first persisted window at or below `lo`
 (stepping by `W`), returning where to continue from. -/
